@@ -567,6 +567,10 @@ class IRGenerator:
                 raise InvalidSpec(
                     'Annotations cannot be applied to parameters of annotation types',
                     param.lineno, param.path)
+            if isinstance(param, AstVoidField):
+                raise InvalidSpec(
+                    'Parameter {} must have a type.'.format(quote(param.name)),
+                    param.lineno, param.path)
             param_type = self._resolve_type(env, param.type_ref, True)
             dt, nullable_dt = unwrap_nullable(param_type)
 
